@@ -7,3 +7,5 @@ open MdVerif.RenderX
 #print axioms C16_admonition_renders
 #print axioms C16_admonition_default_title
 #print axioms C16_admonition_no_title
+#print axioms C16_deflist_renders
+#print axioms C16_deflist_one
